@@ -5,5 +5,11 @@ TEXTS = {
         "level_note": "Trusts the reference aggregator (written from the documentation, sharing only hdrhistogram with zenodb), the verif hooks' ingestion barrier, and bytemap.AsMap for decoding result keys. Excludes the listed findings' input classes by construction.",
         "technique": "property-based testing (rapid), reference-model oracle",
     },
+    "C09": {
+        "level_text": "Exploration: tens of thousands of generated row sets x ORDER BY key lists x LIMIT/OFFSET per run at the operator level, plus generated datasets through DB.Query, each decided by a validity predicate (sub-multiset, exact count, sortedness under an independent comparator, positional key-equivalence with a reference sort). Catches comparator and slicing defects for any key-list shape; does not establish absence.",
+        "design_ref": "DESIGN.md section 4 C09",
+        "level_note": "Trusts the reference comparator (nil first, natural order per type, DESC reverses) and bytemap for building/decoding keys.",
+        "technique": "property-based testing (rapid), validity-predicate oracle",
+    },
 }
 NOT_APPLICABLE = []
